@@ -1,6 +1,6 @@
 """C19 — capacity limits are clean edges and semantics do not depend on pool geometry."""
 import random
-import vlib, histcheck, jsonchecks
+import vlib, histcheck, jsonchecks, chaincheck
 from gen_json import hx
 
 def geom_defs(idsz, cap, ipc, strsz=None):
@@ -84,6 +84,9 @@ def check(run):
                 at, bt = a.split(" "), b0.split(" ")
                 i = next((i for i, (x, y) in enumerate(zip(at, bt)) if x != y), -1)
                 all_mism.append((cfg, (i, f"PRUN {l[:1500]} [geometry {g}]", " ".join(at[max(0, i - 3):i + 2]), " ".join(bt[max(0, i - 3):i + 2]))))
+    # (b') arrays and objects as chains of slots (Model/Collection.v), filled to the last slot, under every geometry
+    nchain = chaincheck.run(run, rnd, "C19", matrix, 60 if thorough else 10, nops=(40, 120))
+    run.cov["disagreements_checked"] += nchain
     # (c) string length limit (1-byte lengths): 255 fits, 256 fails cleanly, document intact and usable
     implS = vlib.need_harness("hist_h", cfg, geom_defs(1, 16, 4, 1))
     s255, s256 = hx(b"x" * 255), hx(b"y" * 256)
@@ -99,11 +102,14 @@ def check(run):
         oracle_fail.append((cfg, "HRUN 1 0 - " + script[:200], "overflowed() set when the string is too long", steps[3][1]))
     run.cov["rule"] = ("geometry matrix %s (slot-id bytes, pool capacity, inline pools): (a) %d tree-model histories below the limits must give the geometry-free model's observables; "
                        "(b) random and scripted alloc/free/shrinkToFit/clear histories with allocator failures on the slot allocator, exactly at / below / above 2^(8*size)-1 slots: ids < NULL_SLOT "
-                       "and equal to the proved pool model's; (c) string length limit with 1-byte lengths; distinct = distinct (geometry, case)" % (matrix, nh))
+                       "and equal to the proved pool model's; (b') array / object histories (add, insert beyond the end, remove, member add/remove, clear, shrinkToFit, failures) incl. filling to the last slot: "
+                       "slot chains and allocator-call counts equal Model/Collection.v's and obey the proved list laws; (c) string length limit with 1-byte lengths; distinct = distinct (geometry, case)" % (matrix, nh))
     run.sample(dict(geometry=matrix[0], case="PRUN a0 a0 a1 f0 s a0 c a0"))
     jsonchecks.finish_standard(run, "C19", ok, info, oracle_fail, all_mism, harness="hist_h")
 
 def replay(rp):
+    if any(l.startswith("ARUN") for l in rp.get("lines", [])):
+        return chaincheck.replay(rp)
     cfg = rp.get("cfg", "10001")
     name = rp.get("harness_src", "hist_h")
     h = vlib.need_harness(name, cfg, rp.get("defines"))
